@@ -1,12 +1,12 @@
 SPECIFICATION Spec
 CONSTANTS
-  Kind = "EMG"
+  Kind = "Data3D"
   NI = 2
-  MaxItems = 3
+  MaxItems = 2
   MaxChan = 3
-  Labels = {1, 2}
-  Chans = {0, 1, 2}
-  Edits = FALSE
+  Labels = {1}
+  Chans = {1}
+  Edits = TRUE
   AutoRule = "max"
 INVARIANT InvConforms
 INVARIANT InvAligned
